@@ -238,3 +238,229 @@ Proof.
       rewrite E1, Hs; cbn; auto.
   - rewrite Hr. split; reflexivity.
 Qed.
+
+(* ================= the option is carried down the chain of base formats ================= *)
+(* [carries o f]: under o's long name the format f (own level or a base) finds o, and lists o and nothing else *)
+Definition carries (o : opt) (f : fmt) : Prop :=
+  has_option_all f (o_long o) = true /\ get_option_all f (o_long o) = Ok o /\
+  In (o_long o, o) (get_options_all f) /\ (forall v, In (o_long o, v) (get_options_all f) -> v = o).
+
+Lemma carries_base es o g : format_of_elements es None = Ok g -> In (EOpt o) es -> carries o g.
+Proof.
+  unfold format_of_elements. destruct (add_elements (empty_builder None) es) as [b|k] eqn:Hb; cbn [bind]; [|discriminate].
+  intros H Hin. inversion H; subst g. clear H.
+  destruct (built_knows_option es b o Hb Hin) as (H1 & H2 & _).
+  destruct (add_elements_has es _ b o Hb Hin) as [Hl _].
+  assert (NoDup (map fst (f_opts b))) as Hnd.
+  { apply (add_elements_inv (fun f => NoDup (map fst (f_opts f))) add_elem_nodup es (empty_builder None) b); [constructor|exact Hb]. }
+  assert (f_base b = None) as Hbase.
+  { apply (add_elements_inv (fun f => f_base f = None)) with (es := es) (f := empty_builder None); [|reflexivity|exact Hb].
+    intros f e f' Hf He. destruct e as [o1|c|a|c];
+      try (apply add_other_inv in He as (_ & _ & ->); [exact Hf|discriminate]).
+    apply add_option_inv in He as (_ & _ & _ & _ & ->). exact Hf. }
+  split; [exact H1|]. split; [exact H2|].
+  destruct (build_format_same b) as (Hb0 & _ & _ & Ho & _).
+  destruct (build_format b) as [b0 cn co cs ar os oss hm ho]. cbn [f_base f_opts] in Hb0, Ho. rewrite Hbase in Hb0. subst b0 os.
+  cbn [get_options_all]. split; [now apply sget_in|].
+  intros v Hv. apply (nodup_in_sget _ _ _ Hnd) in Hv. congruence.
+Qed.
+
+Lemma has_option_base f bf n : f_base f = Some bf -> has_option_all bf n = true -> has_option_all f n = true.
+Proof. destruct f as [b cn co cs ar os oss hm ho]. cbn. intros -> ->. now rewrite orb_true_r. Qed.
+Lemma reindex_none n : forall os acc,
+  (forall k o2, In (k, o2) os -> o_short o2 <> Some n) -> sget n (reindex os acc) = sget n acc.
+Proof.
+  unfold reindex. induction os as [|[k o2] r IH]; intros acc Hall; cbn [fold_left snd]; [reflexivity|].
+  rewrite IH by (intros k' o' Hin; apply (Hall k' o'); now right).
+  destruct (o_short o2) as [s2|] eqn:E2; [|reflexivity].
+  unfold sget, sset. rewrite sget_sset. destruct (str_eqb_spec n s2) as [->|]; [|reflexivity].
+  exfalso. exact (Hall k o2 (or_introl eq_refl) E2).
+Qed.
+
+Lemma carries_step es o bf f : carries o bf -> format_of_elements es (Some bf) = Ok f -> carries o f.
+Proof.
+  intros (B1 & B2 & B3 & B4). unfold format_of_elements.
+  destruct (add_elements (empty_builder (Some bf)) es) as [b|k] eqn:Hb; cbn [bind]; [|discriminate].
+  intros H. inversion H; subst f. clear H. set (n := o_long o) in *.
+  assert (f_base b = Some bf /\ sget n (f_opts b) = None /\ forall k o2, In (k, o2) (f_opts b) -> o_short o2 <> Some n) as (I1 & I2 & I3).
+  { apply (add_elements_inv (fun f => f_base f = Some bf /\ sget n (f_opts f) = None /\
+                                     forall k o2, In (k, o2) (f_opts f) -> o_short o2 <> Some n))
+      with (es := es) (f := empty_builder (Some bf)); [|cbn; repeat split; auto|exact Hb].
+    intros f e f' (J1 & J2 & J3) He.
+    destruct e as [o3|c|a|c];
+      try (apply add_other_inv in He as (-> & _ & ->); [auto|discriminate]).
+    apply add_option_inv in He as (Hl & Hs & -> & _ & ->).
+    pose proof (has_option_base f bf n J1 B1) as Hhas.
+    apply taken_false_own in Hl as (_ & _ & Hl).
+    assert (o_long o3 <> n) as Hn1 by (intros E; rewrite E in Hl; congruence).
+    assert (o_short o3 <> Some n) as Hn2.
+    { intros E. rewrite E in Hs. cbn [optname_taken] in Hs. apply taken_false_own in Hs as (_ & _ & Hs). congruence. }
+    split; [exact J1|]. split.
+    - unfold sget, sset in *. rewrite sget_sset. destruct (str_eqb_spec n (o_long o3)); [congruence|exact J2].
+    - intros k o2 Hin. apply in_sset in Hin as [[-> ->]|Hin]; [exact Hn2|eapply J3; eauto]. }
+  pose proof (build_format_short b) as Hre. destruct (build_format_same b) as (Hb0 & _ & _ & Ho & _).
+  destruct (build_format b) as [b0 cn co cs ar os oss hm ho]. cbn [f_base f_opts f_opts_short] in Hb0, Ho, Hre.
+  rewrite I1 in Hb0. subst b0 os oss. unfold carries. fold n. cbn [has_option_all get_option_all get_options_all].
+  rewrite B1, B2, I2, (reindex_none n _ [] I3), !orb_true_r. cbn [sget aget].
+  split; [reflexivity|]. split; [reflexivity|]. apply supdate_carry; assumption.
+Qed.
+
+(* ================= the parser: plain tokens followed by the help switch ================= *)
+(* Option.NO_VALUE, as validated by C07: no value accepted, none required, not multi-valued *)
+Definition no_value (o : opt) : Prop := o_accepts o = false /\ o_required o = false /\ o_multi o = false.
+(* sw is a spelling of the help switch o: "--help", or "-h" if o has that short name *)
+Definition help_switch_of (o : opt) (sw : str) : Prop :=
+  o_long o = S_help /\ (sw = T_help \/ (sw = T_h /\ o_short o = Some [104%N])).
+
+(* same success, same error *)
+Definition same_ok {X} (r1 r2 : res X) : Prop :=
+  match r1 with Ok _ => exists x, r2 = Ok x | Err k => r2 = Err k end.
+Lemma same_ok_refl {X} (r : res X) : same_ok r r.
+Proof. destruct r; cbn; eauto. Qed.
+
+(* the augmented format the token loop runs on knows the switch *)
+Lemma aug_knows f o F ars cns : carries o f -> aug_format f = Ok (F, ars, cns) ->
+  has_option_all F (o_long o) = true /\ get_option_all F (o_long o) = Ok o /\
+  forall s, o_short o = Some s -> has_option_all F s = true /\ get_option_all F s = Ok o.
+Proof.
+  intros (_ & _ & Hin & _). unfold aug_format. cbv zeta.
+  match goal with |- (do f' <- format_of_elements ?es None; _) = _ -> _ =>
+    set (ES := es); destruct (format_of_elements ES None) as [f1|k] eqn:E; cbn [bind]; [|discriminate] end.
+  intros H. inversion H; subst. clear H. unfold format_of_elements in E.
+  destruct (add_elements (empty_builder None) ES) as [b|k] eqn:Hb; cbn [bind] in E; [|discriminate].
+  inversion E; subst F. apply (built_knows_option ES b o Hb).
+  unfold ES. apply in_or_app. right. apply in_or_app. right.
+  apply in_map_iff. exists (o_long o, o). split; [reflexivity|exact Hin].
+Qed.
+
+Lemma starts_dd_dash t : starts_dash t = false -> starts_dd t = false.
+Proof. destruct t as [|a [|b r]]; cbn; try reflexivity. intros ->. reflexivity. Qed.
+Lemma lead_ok_step F len fuel st t rest : lead_ok t = true ->
+  loop (S fuel) F len true st (t :: rest) =
+  match parse_argument F len st t with Ok st' => loop fuel F len true st' rest | Err k => (st, Some k) end.
+Proof.
+  unfold lead_ok. intros H. apply andb_prop in H as [H H3]. apply andb_prop in H as [H1 H2].
+  destruct (starts_dash t) eqn:Hd; [discriminate|]. destruct (is_dd t) eqn:Hdd; [discriminate|].
+  cbn [loop]. rewrite H1, Hdd, Hd, (starts_dd_dash t Hd). reflexivity.
+Qed.
+Lemma parse_argument_opts F len st t st' : parse_argument F len st t = Ok st' -> ps_opts st' = ps_opts st.
+Proof.
+  unfold parse_argument. destruct (has_argument F (APos (Z.of_nat (length (ps_args st)))) true).
+  - destruct (get_argument F _ true) as [a|k]; cbn [bind]; [|discriminate].
+    destruct (a_multi a); intros H; inversion H; reflexivity.
+  - destruct (has_argument F (APos (Z.of_nat (length (ps_args st)) - 1)) true).
+    + destruct (get_argument F _ true) as [a|k]; cbn [bind]; [|discriminate].
+      destruct (a_multi a); [intros H; inversion H; reflexivity|].
+      destruct len; intros H; inversion H; reflexivity.
+    + destruct len; intros H; inversion H; reflexivity.
+Qed.
+
+Section Switch.
+  Variables (F : fmt) (o : opt).
+  Hypothesis Hlong : o_long o = S_help.
+  Hypothesis Hnv : no_value o.
+  Hypothesis Hhas : has_option_all F S_help = true.
+  Hypothesis Hget : get_option_all F S_help = Ok o.
+
+  Lemma add_long_switch st :
+    exists v, add_long_option F st S_help None [] =
+              Ok ({| ps_args := ps_args st; ps_opts := sset S_help v (ps_opts st) |}, []).
+  Proof.
+    destruct Hnv as (Ha & Hr & Hm). unfold add_long_option. cbn [has_option get_option].
+    rewrite Hhas, Hget. cbn [negb bind]. rewrite Ha, Hr, Hm. eexists. reflexivity.
+  Qed.
+  Lemma long_switch st :
+    exists v, parse_long_option F st T_help [] =
+              Ok ({| ps_args := ps_args st; ps_opts := sset S_help v (ps_opts st) |}, []).
+  Proof.
+    destruct Hnv as (Ha & _). unfold parse_long_option. change (skipn 2 T_help) with S_help.
+    change (split_eq S_help []) with (@None (str * str)). unfold accepts. cbn [has_option get_option].
+    rewrite Hhas, Hget, Ha. cbn [andb]. apply add_long_switch.
+  Qed.
+  Lemma short_switch st :
+    has_option_all F [104%N] = true -> get_option_all F [104%N] = Ok o ->
+    exists v, parse_short_option F st T_h [] =
+              (Ok ({| ps_args := ps_args st; ps_opts := sset S_help v (ps_opts st) |}, []),
+               {| ps_args := ps_args st; ps_opts := sset S_help v (ps_opts st) |}).
+  Proof.
+    intros Hh Hg. destruct Hnv as (Ha & _). unfold parse_short_option. change (skipn 1 T_h) with [104%N].
+    unfold accepts. cbn [has_option get_option]. rewrite Hh, Hg, Ha. cbn [andb].
+    unfold add_short_option. cbn [has_option get_option]. rewrite Hh, Hg. cbn [negb bind]. rewrite Hlong.
+    destruct (add_long_switch st) as [v ->]. exists v. reflexivity.
+  Qed.
+
+  Variable sw : str.
+  Hypothesis Hsw : sw = T_help \/ (sw = T_h /\ has_option_all F [104%N] = true /\ get_option_all F [104%N] = Ok o).
+
+  Lemma switch_loop len st m :
+    exists v, loop (S (S m)) F len true st [sw] =
+              ({| ps_args := ps_args st; ps_opts := sset S_help v (ps_opts st) |}, None).
+  Proof.
+    destruct Hsw as [->|(-> & Hh & Hg)].
+    - destruct (long_switch st) as [v Hv]. exists v. cbn [loop].
+      change (true && negb (nonempty T_help)) with false. change (true && is_dd T_help) with false.
+      change (true && starts_dd T_help) with true. cbv iota. rewrite Hv. reflexivity.
+    - destruct (short_switch st Hh Hg) as [v Hv]. exists v. cbn [loop].
+      change (true && negb (nonempty T_h)) with false. change (true && is_dd T_h) with false.
+      change (true && starts_dd T_h) with false.
+      change (true && starts_dash T_h && negb (str_eqb T_h [DASH])) with true. cbv iota. rewrite Hv. reflexivity.
+  Qed.
+
+  (* the loop over plain tokens leaves the options alone; with the switch behind them it ends in the same error, or
+     in the same state plus the stored switch *)
+  Lemma loop_suffix len : forall path fuel st, forallb lead_ok path = true -> length path < fuel ->
+    ps_opts (fst (loop fuel F len true st path)) = ps_opts st /\
+    match snd (loop fuel F len true st path) with
+    | None => exists v, loop (S fuel) F len true st (path ++ [sw]) =
+                        ({| ps_args := ps_args (fst (loop fuel F len true st path));
+                            ps_opts := sset S_help v (ps_opts st) |}, None)
+    | Some k => loop (S fuel) F len true st (path ++ [sw]) = (fst (loop fuel F len true st path), Some k)
+    end.
+  Proof.
+    induction path as [|t r IH]; intros fuel st Hl Hf.
+    - destruct fuel as [|m]; [cbn in Hf; lia|]. cbn [loop fst snd app]. split; [reflexivity|]. apply switch_loop.
+    - destruct fuel as [|m]; [cbn in Hf; lia|]. cbn [length] in Hf. cbn [forallb] in Hl.
+      apply andb_prop in Hl as [Ht Hr]. cbn [app]. rewrite !(lead_ok_step _ _ _ _ _ _ Ht).
+      destruct (parse_argument F len st t) as [st'|k] eqn:Ep; [|cbn [fst snd]; auto].
+      destruct (IH m st' Hr ltac:(lia)) as [I1 I2]. rewrite (parse_argument_opts _ _ _ _ _ Ep) in I1, I2.
+      split; [exact I1|exact I2].
+  Qed.
+End Switch.
+
+Lemma insert_missing_swap A C len st X :
+  insert_missing A C len {| ps_args := ps_args st; ps_opts := X |} =
+  match insert_missing A C len st with
+  | Ok st2 => Ok {| ps_args := ps_args st2; ps_opts := X |}
+  | Err k => Err k end.
+Proof.
+  unfold insert_missing. cbn [ps_args ps_opts]. destruct (skip_names (flatten (ps_args st)) C 0) as [[vals' cns'] k].
+  destruct (copy_values vals' _ len _); reflexivity.
+Qed.
+
+(* the parse of <plain tokens> <switch> succeeds exactly when the parse of <plain tokens> does, and fails alike *)
+Lemma parse_switch f o sw len path :
+  carries o f -> no_value o -> help_switch_of o sw -> forallb lead_ok path = true ->
+  same_ok (parse f len path) (parse f len (path ++ [sw])).
+Proof.
+  intros Hc Hnv [Hlong Hsw] Hl. unfold parse, parse_on.
+  destruct (aug_format f) as [[[F ars] cns]|k] eqn:Ea; [|cbn; reflexivity].
+  destruct (aug_knows f o F ars cns Hc Ea) as (A1 & A2 & A3). rewrite Hlong in A1, A2.
+  assert (sw = T_help \/ (sw = T_h /\ has_option_all F [104%N] = true /\ get_option_all F [104%N] = Ok o)) as Hsw'.
+  { destruct Hsw as [->|[-> Hs]]; [now left|right]. destruct (A3 _ Hs). auto. }
+  destruct (loop_suffix F o Hlong Hnv A1 A2 sw Hsw' len path (S (length path)) ps_empty Hl ltac:(lia)) as [L1 L2].
+  replace (S (length (path ++ [sw]))) with (S (S (length path))) by (rewrite app_length; cbn; lia).
+  destruct (loop (S (length path)) F len true ps_empty path) as [st1 e]. cbn [fst snd] in L1, L2.
+  destruct e as [k|].
+  - rewrite L2. apply same_ok_refl.
+  - destruct L2 as [v ->]. cbn [ps_opts ps_empty]. cbv iota.
+    rewrite (insert_missing_swap ars cns len st1).
+    pose proof (insert_missing_spec ars cns len st1) as Hi.
+    destruct (insert_missing ars cns len st1) as [st2|k]; [|cbn; reflexivity].
+    unfold missing_required. cbn [ps_args].
+    destruct (existsb _ ars && negb len); [cbn; reflexivity|]. cbn [snd ps_args ps_opts].
+    rewrite Hi, L1. cbn [ps_opts ps_empty].
+    destruct (set_arguments f {| ar_opts := []; ar_args := [] |} (ps_args st2)) as [a1|k]; cbn [bind]; [|reflexivity].
+    destruct Hc as (C1 & C2 & _). rewrite Hlong in C1, C2. destruct Hnv as (Ha & _ & Hm).
+    change (sset S_help v []) with [(S_help, v)]. cbn [set_options same_ok has_option]. rewrite C1.
+    unfold set_option. cbn [get_option]. rewrite C2. cbn [bind]. rewrite Hm, Ha. cbn [bind]. eexists. reflexivity.
+Qed.
